@@ -12,7 +12,7 @@ from concurrent.futures import ThreadPoolExecutor
 ROOT = os.path.dirname(os.path.dirname(os.path.abspath(__file__)))
 BUILD = os.path.join(ROOT, "build")
 COQ = os.path.join(ROOT, "coq")
-REPO = "/repo"
+REPO = os.environ.get("VERIF_REPO", "/repo")
 GOENV = dict(os.environ, GOFLAGS="-mod=mod", GOPROXY="off", GOSUMDB="off", GOTOOLCHAIN="local",
              CGO_ENABLED=os.environ.get("CGO_ENABLED", "0"))
 NPROC = min(16, os.cpu_count() or 4)
@@ -90,6 +90,9 @@ def build(need_cli=False, quiet=False):
         # 1. harness from /repo's working tree
         hdir = os.path.join(ROOT, "harness")
         shutil.copyfile(os.path.join(REPO, "go.sum"), os.path.join(hdir, "go.sum"))
+        if REPO != "/repo":
+            # scratch copies (mutation testing): point the harness module at the copy
+            sh(["go", "mod", "edit", "-replace", "github.com/skx/evalfilter/v2=" + REPO], cwd=hdir, env=GOENV)
         p = sh(["go", "build", "-tags", "verif", "-o", os.path.join(BUILD, "harness"), "."], cwd=hdir, env=GOENV, timeout=600)
         st["log"]["harness"] = p.stdout[-4000:]
         st["harness"] = p.returncode == 0
@@ -121,7 +124,7 @@ def build(need_cli=False, quiet=False):
         proj = "-Q . EF\n" + "\n".join(project_files()) + "\n"
         if write_if_changed(os.path.join(COQ, "_CoqProject"), proj) or not os.path.exists(os.path.join(COQ, "Makefile")):
             sh("coq_makefile -f _CoqProject -o Makefile", cwd=COQ, timeout=120)
-        p = sh("timeout 2400 make -k -j%d 2>&1" % NPROC, cwd=COQ, timeout=2500)
+        p = sh("timeout 2400 make -k -j%d COQC='timeout 900 coqc' 2>&1" % NPROC, cwd=COQ, timeout=2500)
         st["coq_make_rc"] = p.returncode
         st["log"]["coq"] = p.stdout[-8000:]
         # 4. extraction + driver (only when the model changed)
